@@ -182,9 +182,17 @@ class Field:
         dof_n = self.__dof_n
 
         if self.__is_currently_evaluated:
-            return self.groupElem.Get_Gradient_e_pg(
-                self._Get_dofsValues(), self.matrixType
-            )[..., :dof_n, :dof_n]
+            # same tensor as in the basis-function mode below: grad[i, j] = d u_i / d x_j with
+            # dof_n rows and dim columns, a vector (d u / d x_j) for a scalar field
+            groupElem = self.groupElem
+            dN_e_pg = np.asarray(groupElem.Get_dN_e_pg(self.__matrixType))
+            u_e_n = groupElem.Locates_sol_e(self._Get_dofsValues(), dof_n).reshape(
+                groupElem.Ne, groupElem.nPe, dof_n
+            )
+            grad_e_pg = np.einsum("epjn,eni->epij", dN_e_pg, u_e_n, optimize="optimal")
+            if dof_n == 1:
+                grad_e_pg = grad_e_pg[..., 0, :]
+            return FeArray.asfearray(grad_e_pg)
 
         node = self._Get_current_active_node()
         dof = self._Get_current_active_dof()
